@@ -17,6 +17,7 @@ type gridOutcome struct {
 	hs     *peer.HS
 	offer  offer
 	skip   string
+	build  int // index into buildOrderNames
 }
 
 // runGrid picks a client and a compatible server configuration and runs handshake + echo.
@@ -45,7 +46,8 @@ func runGrid(x *explore.X, clients []gridClient, keepOpen bool, tweak func(c *tl
 	if tweak != nil {
 		tweak(ccfg, scfg)
 	}
-	out.hs = peer.Run(ccfg, g.ID, scfg, peer.Opts{Prepare: g.prepare(), Echo: true, KeepOpen: keepOpen})
+	out.build = x.Choose("cli.build", len(buildOrderNames))
+	out.hs = peer.Run(ccfg, g.ID, scfg, peer.Opts{Prepare: withBuildOrder(g.prepare(), out.build), Echo: true, KeepOpen: keepOpen})
 	return out
 }
 
@@ -65,7 +67,7 @@ func c10Grid(name string, clients []gridClient, srvBudget int) *explore.Scenario
 				return
 			}
 			hs := o.hs
-			what := fmt.Sprintf("%s (Config.NextProtos=%v) vs server{%s}", o.client.Name, o.client.NextProtos, o.sc.desc)
+			what := fmt.Sprintf("%s (Config.NextProtos=%v, %s) vs server{%s}", o.client.Name, o.client.NextProtos, buildOrderNames[o.build], o.sc.desc)
 			r.Nontrivial = true
 			r.Class = fmt.Sprintf("%s|%v|%s", o.client.Name, o.client.NextProtos, o.sc.desc)
 			if o.sc.HRR {
@@ -104,17 +106,95 @@ func c10Grid(name string, clients []gridClient, srvBudget int) *explore.Scenario
 	}
 }
 
+// c10EditedShares — a hello whose key_share list the caller trimmed after BuildHandshakeState is
+// still an offered fingerprint: whatever classical group it lists the server may pick, with a
+// HelloRetryRequest when the share for it was removed.
+func c10EditedShares(clients []gridClient) *explore.Scenario {
+	return &explore.Scenario{
+		Name: "trimmed-key-share-lists",
+		Run: func(x *explore.X) (r explore.Result) {
+			g := clients[x.Choose("client", len(clients))]
+			h0, err := g.probeHello()
+			if err != nil {
+				r.Obs = "no-hello"
+				return
+			}
+			o := offerOf(h0)
+			var classical []uint16
+			for _, s := range o.shares {
+				if s == 29 || s == 23 || s == 24 || s == 25 {
+					classical = append(classical, s)
+				}
+			}
+			if !has16(o.versions, tls.VersionTLS13) || len(classical) < 2 {
+				r.Obs = "fewer-than-two-classical-shares"
+				return
+			}
+			drop := classical[x.Choose("drop", len(classical))]
+			var listed []uint16
+			for _, c := range []uint16{29, 23, 24, 25} {
+				if has16(o.groups, c) {
+					listed = append(listed, c)
+				}
+			}
+			grp := listed[x.Choose("srv.group", len(listed))]
+			certKind := "ecdsa"
+			if !offersCert(o, "ecdsa") {
+				certKind = "rsa"
+			}
+			sc := serverChoice{Vers: tls.VersionTLS13, Group: grp, Cert: certKind}
+			what := fmt.Sprintf("%s with the share for group %d removed after BuildHandshakeState, server forced to group %d", g.Name, drop, grp)
+			prep := g.prepare()
+			hs := peer.Run(g.config("example.com"), g.ID, sc.config(), peer.Opts{Echo: true, Prepare: func(u *tls.UConn) error {
+				if prep != nil {
+					if err := prep(u); err != nil {
+						return err
+					}
+				}
+				if err := u.BuildHandshakeState(); err != nil {
+					return err
+				}
+				for _, e := range u.Extensions {
+					if ks, ok := e.(*tls.KeyShareExtension); ok {
+						var kept []tls.KeyShare
+						for _, k := range ks.KeyShares {
+							if uint16(k.Group) != drop {
+								kept = append(kept, k)
+							}
+						}
+						ks.KeyShares = kept
+					}
+				}
+				return nil
+			}})
+			r.Nontrivial = true
+			r.Class = fmt.Sprintf("%s|drop=%d|group=%d", g.Name, drop, grp)
+			if hs.OK() && hs.EchoOK {
+				r.Obs = "ok"
+				r.Count("completed", 1)
+				if grp == drop {
+					r.Count("hrr_handshakes", 1)
+				}
+				return
+			}
+			r.Obs = "fail|" + whoFailed(hs)
+			r.Violate(fmt.Sprintf("C10|edited-shares|%s-abort|dropped=%d|server-group=%d|cerr=%s", whoFailed(hs), drop, grp, errClass(hs.CErr)), "%s: client err=%v server err=%v echo=%v %s%s", what, hs.CErr, hs.SErr, hs.EchoErr, hs.CPanic, hs.SPanic)
+			return
+		},
+	}
+}
+
 func c10Scenarios(thorough bool) []*explore.Scenario {
 	if thorough {
-		return []*explore.Scenario{c10Grid("grid-full-product", gridClients(64, true), -1)}
+		return []*explore.Scenario{c10Grid("grid-full-product", gridClients(64, true), -1), c10EditedShares(gridClients(64, true))}
 	}
-	return []*explore.Scenario{c10Grid("grid-pairs", gridClients(3, true), 2)}
+	return []*explore.Scenario{c10Grid("grid-pairs", gridClients(3, true), 2), c10EditedShares(gridClients(8, true))}
 }
 
 func init() {
 	register(&Prop{ID: "C10", Level: "exploration", Variant: "A", Scenarios: c10Scenarios,
 		Run: func(c *explore.Check, thorough bool) {
-			c.Rule = "client in {every discovered ID, 3 (64) enumerated seeds per randomized kind, 5 handshake-capable custom specs, fingerprinted copy of every parrot} x server configuration chosen only among values the on-wire hello offers and the utls server implements: version {1.3,1.2} x CurvePreferences {default, each offered group incl. ones without a share => HRR} x pinned TLS 1.2 suite {default, each offered} x certificate kind {ECDSA, RSA, Ed25519 as verifiable by the offered signature algorithms} x ALPN {none, each offered}; server-axis deviations <=2 (quick) / full product (thorough). Oracle: handshake completes on both sides and 1 KiB echoes both ways. distinct = (client, server choice)"
+			c.Rule = "client in {every discovered ID, 3 (64) enumerated seeds per randomized kind, 5 handshake-capable custom specs, fingerprinted copy of every parrot} x server configuration chosen only among values the on-wire hello offers and the utls server implements: version {1.3,1.2} x CurvePreferences {default, each offered group incl. ones without a share => HRR} x pinned TLS 1.2 suite {default, each offered} x certificate kind {ECDSA, RSA, Ed25519 as verifiable by the offered signature algorithms} x ALPN {none, each offered}; client-side deviations (<=1): Config.NextProtos, build order {Handshake, BuildHandshakeState+Handshake, BuildHandshakeStateWithoutSession+BuildHandshakeState+Handshake}; server-axis deviations <=2 (quick) / full product (thorough). Plus: every client with two or more classical key shares x each share removed from the KeyShareExtension after BuildHandshakeState x the server forced to each listed classical group (HelloRetryRequest when it is the removed one). Oracle: handshake completes on both sides and 1 KiB echoes both ways. distinct = (client, server choice)"
 			c.Assumptions = []string{"server choices are restricted (by a small negotiation model over the parsed on-wire hello) to ones a compliant server must accept, so every failure is a violation; who aborted is classified from the error texts", "peer is utls's own Server (TLS 1.3 suite selection not pinned); PSK parrots run with OmitEmptyPsk"}
 			runAll(c, c10Scenarios(thorough), 0)
 			c.Gate(c.Total.Counters["completed"] > 1000, "non-vacuity: completed=%d", c.Total.Counters["completed"])
